@@ -187,3 +187,24 @@ func init() {
 	addControl(control{Prop: "C14", Name: "countfield-wrap-via-helper-variable", Rule: "R14a", Kind: "refactor", Quick: true,
 		File: "getset.go", Old: "			ctx := v.Context()\n			return -1, raisePathErr(err, v.meta(), \"\", ctx.path(\".\"))", New: "			ctx := v.Context()\n			var wrapped Error = raisePathErr(err, v.meta(), \"\", ctx.path(\".\"))\n			return -1, wrapped"})
 }
+
+func init() {
+	// ---------------- C04 ----------------
+	addControl(control{Prop: "C04", Name: "unpacker-branch-skips-validators", Rule: "R04a", Kind: "mutant", Quick: true,
+		File: "reify.go", Old: "		if err := runValidators(old.Interface(), opts.validators); err != nil {\n			return reflect.Value{}, raiseValidation(val.Context(), val.meta(), \"\", err)\n		}\n		if err := tryValidate(old); err != nil {", New: "		if err := tryValidate(old); err != nil {", Expect: "R04a/ucfg.reifyMergeValue"})
+	addControl(control{Prop: "C04", Name: "primitive-validate-method-skipped", Rule: "R04b", Kind: "mutant", Quick: true,
+		File: "reify.go", Old: "	if err := tryValidate(v); err != nil {\n		return reflect.Value{}, raiseValidation(val.Context(), val.meta(), \"\", err)\n	}\n\n	return pointerize(t, baseType, chaseValuePointers(v)), nil", New: "	return pointerize(t, baseType, chaseValuePointers(v)), nil", Expect: "R04b/ucfg.reifyPrimitive"})
+	addControl(control{Prop: "C04", Name: "array-early-return-for-empty", Rule: "R04a", Kind: "mutant",
+		File: "reify.go", Old: "	aLen := len(arr)\n	tLen := to.Len()\n	for idx := 0; idx < tLen; idx++ {", New: "	aLen := len(arr)\n	tLen := to.Len()\n	if tLen == 0 {\n		return to, nil\n	}\n	for idx := 0; idx < tLen; idx++ {", Expect: "R04a/ucfg.reifyDoArray"})
+	addControl(control{Prop: "C04", Name: "map-field-unpacked-without-validators", Rule: "R04a", Kind: "mutant",
+		File: "reify.go", Old: "return old, reifyMap(opts.opts, old, sub, opts.validators)", New: "return old, reifyMap(opts.opts, old, sub, nil)", Expect: "R04a/ucfg.reifyMergeValue"})
+	addControl(control{Prop: "C04", Name: "absent-pointer-field-not-validated", Rule: "R04a", Kind: "mutant",
+		File: "reify.go", Old: "		if fieldType.Kind() == reflect.Ptr {\n			if err := tryRecursiveValidate(to, opts.opts, opts.validators); err != nil {\n				return raiseValidation(cfg.ctx, cfg.metadata, name, err)\n			}\n			return nil\n		}", New: "		if fieldType.Kind() == reflect.Ptr {\n			return nil\n		}", Expect: "R04a/ucfg.reifyGetField"})
+	addControl(control{Prop: "C04", Name: "struct-fields-without-their-tags", Rule: "R04d", Kind: "mutant",
+		File: "reify.go", Old: "				fopts := fieldOptions{opts: fInfo.options, tag: fInfo.tagOptions, validators: fInfo.validatorTags}\n				if err := reifyGetField(", New: "				fopts := fieldOptions{opts: fInfo.options, tag: fInfo.tagOptions, validators: nil}\n				if err := reifyGetField(", Expect: "R04d/ucfg.reifyStruct"})
+	addControl(control{Prop: "C04", Name: "map-empty-config-shortcut", Rule: "R04a", Kind: "mutant",
+		File: "reify.go", Old: "	if len(fields) == 0 {\n		if err := tryRecursiveValidate(to, opts, validators); err != nil {\n			return raiseValidation(from.ctx, from.metadata, \"\", err)\n		}\n		return nil\n	}", New: "	if len(fields) == 0 {\n		return nil\n	}", Expect: "R04a/ucfg.reifyMap"})
+	addControl(control{Prop: "C04", Name: "primitive-validation-in-helper-order", Rule: "R04a", Kind: "refactor", Quick: true,
+		File: "reify.go", Old: "	if err := runValidators(v.Interface(), opts.validators); err != nil {\n		return reflect.Value{}, raiseValidation(val.Context(), val.meta(), \"\", err)\n	}\n\n	if err := tryValidate(v); err != nil {\n		return reflect.Value{}, raiseValidation(val.Context(), val.meta(), \"\", err)\n	}\n\n	return pointerize(t, baseType, chaseValuePointers(v)), nil",
+		New: "	verr := runValidators(v.Interface(), opts.validators)\n	if verr == nil {\n		verr = tryValidate(v)\n	}\n	if verr != nil {\n		return reflect.Value{}, raiseValidation(val.Context(), val.meta(), \"\", verr)\n	}\n	return pointerize(t, baseType, chaseValuePointers(v)), nil"})
+}
